@@ -7,7 +7,7 @@
 From Coq Require Import List String NArith ZArith Bool Permutation.
 From GoMC Require Model.C20 Proofs.C20 Proofs.C20_ll Proofs.C20_term Proofs.C20_order Proofs.C20_top.
 From GoMC Require Import Base.Bytes Base.Dec Gen.Consts Gen.Gate Model.C05 Model.C07 Model.C19_syntax Model.C19
-  Proofs.C07 Proofs.C19_net Proofs.C19_gate Proofs.C19_play Proofs.C19_disp Proofs.C19_expected Proofs.C19_skel Proofs.C19_reg Proofs.C19_skel_disp Proofs.C19_close Proofs.C19_conn Proofs.C19_closei Proofs.C19_accept.
+  Proofs.C07 Proofs.C19_net Proofs.C19_gate Proofs.C19_play Proofs.C19_disp Proofs.C19_expected Proofs.C19_skel Proofs.C19_reg Proofs.C19_skel_disp Proofs.C19_close Proofs.C19_conn Proofs.C19_closei Proofs.C19_accept Proofs.C19_refine.
 Import ListNotations.
 Open Scope Z_scope.
 
@@ -248,6 +248,32 @@ Theorem C19_cut_outcome_stock :
   b_ph (cut_outcome_bot bc k (join_s2c offl bc sc)) =
     if (k <=? p)%nat then BFailed stLoginRead else if (k <=? p + n + 1)%nat then BFailed stConfigRead else BJoined.
 Proof. exact cut_outcome_stock. Qed.
+
+(* The coarse queue machine refines the C20 instance: for ANY numbering enc of the packets, every state of
+   every run of qstate/qstep is the image (Rel: same queue, same closed flag, same packets handed out,
+   same number of error reports, both goroutines between two calls) of a state that C20's machine -
+   running the LinkedListQueue programs translated from net/queue/queue.go on the scripts
+   [Push per packet ++ Close; Pull per ReadPacket] - reaches by executing every Push / Close / Pull
+   statement by statement (forward simulation; a ReadPacket blocked on the empty open queue is the
+   consumer not being scheduled). *)
+Theorem C19_qrun_refines_c20 :
+  forall (enc : ppkt -> N) (wire : list ppkt) (es : list qev),
+  exists (s : C20.state) (k : nat), conn_reachable (map enc wire) (nreads es) s /\ Rel enc k (qrun wire es) s.
+Proof. exact qrun_refines_c20. Qed.
+(* ... hence, as a corollary of C20's theorems (FIFO, exactly-once, push-then-close program order) instead
+   of a second hand proof: under any numbering, what Conn.ReadPacket has returned is a prefix of what
+   arrived, and once the error has been returned it is all of it; with an injective numbering this is
+   the second clause of C19_close_conn literally *)
+Theorem C19_close_conn_from_c20 :
+  forall (enc : ppkt -> N) (wire : list ppkt) (es : list qev),
+  let x := qrun wire es in
+  ((exists a, map enc (q_got x) = firstn a (map enc wire)) /\
+   ((q_errs x > 0)%nat -> map enc (q_got x) = map enc wire)) /\
+  ((forall p p', enc p = enc p' -> p = p') -> (q_errs x > 0)%nat -> q_got x = wire).
+Proof.
+  intros enc wire es. split; [exact (close_conn_from_c20 enc wire es)|].
+  intros Hinj. exact (close_conn_from_c20_inj enc Hinj wire es).
+Qed.
 
 (* The same guarantees obtained from C20 instead of a second model: the queue under warpConn IS C20's
    machine running the programs translated from net/queue/queue.go, with the reader goroutine as the
@@ -608,6 +634,8 @@ Print Assumptions C19_close_eof_stage.
 Print Assumptions C19_cut_outcome.
 Print Assumptions C19_accept_iff_configured.
 Print Assumptions C19_cut_outcome_stock.
+Print Assumptions C19_qrun_refines_c20.
+Print Assumptions C19_close_conn_from_c20.
 Print Assumptions C19_close_conn_c20.
 Print Assumptions C19_close_conn_c20_order.
 Print Assumptions C19_close_conn_c20_terminates.
